@@ -62,8 +62,8 @@ impl BigInt {
     { unimplemented!() }
 }
 
-// RefCell / Ref: signature-only external specifications.  They occur in the `Unifier` arms, which
-// the contracts prove unreachable (hole-free precondition).
+// RefCell / Ref: signature-only external specifications (they only occur in code that rule R9 replaces or
+// that is dead under the precondition).
 #[verifier::accept_recursive_types(T)]
 #[verifier::external_type_specification]
 #[verifier::external_body]
@@ -91,3 +91,21 @@ pub struct DynError { _p: u8 }
 #[verifier::external_body]
 pub fn stuck_message<'a>(term: &Term<'a>) -> String { unimplemented!() }
 
+
+pub assume_specification<T> [std::cell::RefCell::<T>::new] (_0: T) -> std::cell::RefCell<T>;
+
+// ---- TRUSTED model of hole cells (`Unifier(Rc<RefCell<Option<Term>>>, shift)`) -----------------------
+// A hole is either unresolved or stands for the term stored in its cell.  While the functions under
+// contract run, no cell is written (there is no `borrow_mut` in them; evaluation starts after type
+// checking has finished), so "the content of a cell" is a function of the cell: `hole_resolved`,
+// `hole_view` (the abstract view of the content).  Rule R9 replaces the read `{ c.borrow().clone() }` by
+// `hole_content(c)`, whose assumed contract ties the value read to these two functions.
+pub uninterp spec fn hole_resolved<'a>(c: Rc<RefCell<Option<Term<'a>>>>) -> bool;
+pub uninterp spec fn hole_view<'a>(c: Rc<RefCell<Option<Term<'a>>>>) -> STerm;
+
+#[verifier::external_body]
+pub fn hole_content<'a>(c: &Rc<RefCell<Option<Term<'a>>>>) -> (r: Option<Term<'a>>)
+    ensures
+        r is Some <==> hole_resolved(*c),
+        r is Some ==> view(r->Some_0) == hole_view(*c),
+{ unimplemented!() }
